@@ -382,4 +382,435 @@ theorem expand_flat (q : Quirks) (ms : List Macro) (hf : flatTable ms = true) : 
         · rename_i ps hps
           rw [hp] at hps; simp at hps
 
+
+/-! ## the directive loop follows the abstract inclusion machine -/
+
+/-- effect of one line on the `ifstates` stack and on the kept lines, as `runC` would compute it from the line's skeleton entry -/
+def LineOK (st st' : PState) (i : Nat) (l : List LTok) : Option CLine → Prop
+  | none => st'.ifs = st.ifs ∧ (match l with | h :: _ => (h.s != ['#']) = false | [] => True)
+  | some (.text j) => j = i ∧ st'.ifs = st.ifs ∧ (match l with | h :: _ => (h.s != ['#']) = true | [] => False)
+  | some (.ifc c) => st'.ifs = ifOpen st.ifs c ∧ (match l with | h :: _ => (h.s != ['#']) = false | [] => False)
+  | some (.elifc c) => st.ifs.isEmpty = false ∧ st'.ifs = ifElif st.ifs c ∧ (match l with | h :: _ => (h.s != ['#']) = false | [] => False)
+  | some .els => st.ifs.isEmpty = false ∧ st'.ifs = ifElse st.ifs ∧ (match l with | h :: _ => (h.s != ['#']) = false | [] => False)
+  | some .endif => st.ifs.isEmpty = false ∧ st'.ifs = st.ifs.tail ∧ (match l with | h :: _ => (h.s != ['#']) = false | [] => False)
+
+theorem tokS_ne (a b : String) (h : a.toList ≠ b.toList) : (tokS a == tokS b) = false := by
+  simp [tokS, h]
+
+theorem stepDirective_skel (q : Quirks) (undefs : List Tok) (st st' : PState) (dn : Tok) (rest : List LTok)
+    (h : stepDirective q undefs st dn rest = .ok st') :
+    (isCondOpen dn = true → ∃ c, condOf q st dn rest = .ok c ∧ st'.ifs = ifOpen st.ifs c) ∧
+    (dn = tokS "elif" → ∃ c, condOf q st dn rest = .ok c ∧ st.ifs.isEmpty = false ∧ st'.ifs = ifElif st.ifs c) ∧
+    (dn = tokS "else" → st.ifs.isEmpty = false ∧ st'.ifs = ifElse st.ifs) ∧
+    (dn = tokS "endif" → st.ifs.isEmpty = false ∧ st'.ifs = st.ifs.tail) ∧
+    (isCondOpen dn = false → dn ≠ tokS "elif" → dn ≠ tokS "else" → dn ≠ tokS "endif" → st'.ifs = st.ifs) := by
+  have e1 : (tokS "elif" == tokS "define") = false := by decide
+  have e2 : (tokS "elif" == tokS "include") = false := by decide
+  have e3 : (tokS "elif" == tokS "error") = false := by decide
+  have e4 : (tokS "else" == tokS "define") = false := by decide
+  have e5 : (tokS "else" == tokS "include") = false := by decide
+  have e6 : (tokS "else" == tokS "error") = false := by decide
+  have e7 : (tokS "endif" == tokS "define") = false := by decide
+  have e8 : (tokS "endif" == tokS "include") = false := by decide
+  have e9 : (tokS "endif" == tokS "error") = false := by decide
+  refine ⟨?_, ?_, ?_, ?_, ?_⟩
+  · intro hc
+    unfold isCondOpen at hc
+    have hne : (dn == tokS "elif") = false ∧ (dn == tokS "else") = false ∧ (dn == tokS "endif") = false ∧
+        (dn == tokS "define") = false ∧ (dn == tokS "include") = false ∧ (dn == tokS "error") = false := by
+      simp only [Bool.or_eq_true, beq_iff_eq] at hc
+      rcases hc with (rfl | rfl) | rfl <;> decide
+    obtain ⟨n1, n2, n3, n4, n5, n6⟩ := hne
+    unfold stepDirective at h
+    simp only [n1, n2, n3, n4, n5, n6, Bool.or_false, Bool.and_false, Bool.false_eq_true, if_false, hc, if_true] at h
+    split at h
+    · simp at h
+    · split at h
+      · simp at h
+      · rename_i c hc'
+        injection h with h; subst h
+        exact ⟨c, hc', rfl⟩
+  · intro hd; subst hd
+    unfold stepDirective at h
+    simp only [e1, e2, e3, beq_self_eq_true, Bool.or_true, Bool.true_or, Bool.and_true, Bool.and_false, Bool.false_eq_true, if_false] at h
+    split at h
+    · simp at h
+    · rename_i hne
+      simp only [Bool.or_true, if_true] at h
+      split at h
+      · simp at h
+      · split at h
+        · simp at h
+        · rename_i c hc'
+          injection h with h; subst h
+          exact ⟨c, hc', by simpa using hne, rfl⟩
+  · intro hd; subst hd
+    have x1 : (tokS "else" == tokS "elif") = false := by decide
+    have x2 : (tokS "else" == tokS "if") = false := by decide
+    have x3 : (tokS "else" == tokS "ifdef") = false := by decide
+    have x4 : (tokS "else" == tokS "ifndef") = false := by decide
+    unfold stepDirective at h
+    simp only [e4, e5, e6, x1, x2, x3, x4, beq_self_eq_true, Bool.or_true, Bool.true_or, Bool.or_false, Bool.and_true, Bool.and_false,
+      Bool.false_eq_true, if_false, if_true] at h
+    split at h
+    · simp at h
+    · rename_i hne
+      injection h with h; subst h
+      exact ⟨by simpa using hne, rfl⟩
+  · intro hd; subst hd
+    have x1 : (tokS "endif" == tokS "elif") = false := by decide
+    have x2 : (tokS "endif" == tokS "if") = false := by decide
+    have x3 : (tokS "endif" == tokS "ifdef") = false := by decide
+    have x4 : (tokS "endif" == tokS "ifndef") = false := by decide
+    have x5 : (tokS "endif" == tokS "else") = false := by decide
+    unfold stepDirective at h
+    simp only [e7, e8, e9, x1, x2, x3, x4, x5, beq_self_eq_true, Bool.or_true, Bool.true_or, Bool.or_false, Bool.and_true, Bool.and_false,
+      Bool.false_eq_true, if_false, if_true] at h
+    split at h
+    · simp at h
+    · rename_i hne
+      injection h with h; subst h
+      exact ⟨by simpa using hne, rfl⟩
+  · intro hc h1 h2 h3
+    unfold isCondOpen at hc
+    have n1 : (dn == tokS "elif") = false := by simpa using h1
+    have n2 : (dn == tokS "else") = false := by simpa using h2
+    have n3 : (dn == tokS "endif") = false := by simpa using h3
+    unfold stepDirective at h
+    simp only [n1, n2, n3, hc, Bool.or_false, Bool.and_false, Bool.false_eq_true, if_false] at h
+    repeat' split at h
+    all_goals first
+      | (exfalso; simp at h; done)
+      | (injection h with h; subst h; rfl)
+
+
+theorem stepLine_skel (q : Quirks) (undefs : List Tok) (st st' : PState) (i : Nat) (l : List LTok) (c : Option CLine)
+    (hs : skelLine q st i l = .ok c) (h : stepLine q undefs st l = .ok st') : LineOK st st' i l c := by
+  cases l with
+  | nil =>
+    simp only [skelLine] at hs; injection hs with hs; subst hs
+    simp only [stepLine] at h; injection h with h; subst h
+    exact ⟨rfl, trivial⟩
+  | cons hd more =>
+    by_cases hh : hd.s = ['#']
+    · have hb : (hd.s == ['#']) = true := by simpa using hh
+      have hnb : (hd.s != ['#']) = false := by simp [hh]
+      simp only [skelLine, hb, if_true] at hs
+      simp only [stepLine, hb, if_true] at h
+      cases more with
+      | nil =>
+        simp only at hs h; injection hs with hs; subst hs; injection h with h; subst h
+        exact ⟨rfl, hnb⟩
+      | cons d rest =>
+        simp only at hs h
+        by_cases hn : isName d.s = true
+        · simp only [hn, Bool.not_true, Bool.false_eq_true, if_false] at hs h
+          obtain ⟨k1, k2, k3, k4, k5⟩ := stepDirective_skel q undefs st st' d.s rest h
+          by_cases c1 : isCondOpen d.s = true
+          · obtain ⟨b, hb1, hb2⟩ := k1 c1
+            simp only [c1, if_true, hb1, Except.map] at hs
+            injection hs with hs; subst hs
+            exact ⟨hb2, hnb⟩
+          · have c1' : isCondOpen d.s = false := by simpa using c1
+            simp only [c1', Bool.false_eq_true, if_false] at hs
+            by_cases c2 : d.s = tokS "elif"
+            · obtain ⟨b, hb1, hb2, hb3⟩ := k2 c2
+              have : (d.s == tokS "elif") = true := by simp [c2]
+              simp only [this, if_true, hb1, Except.map] at hs
+              injection hs with hs; subst hs
+              exact ⟨hb2, hb3, hnb⟩
+            · have n2 : (d.s == tokS "elif") = false := by simpa using c2
+              simp only [n2, Bool.false_eq_true, if_false] at hs
+              by_cases c3 : d.s = tokS "else"
+              · obtain ⟨hb2, hb3⟩ := k3 c3
+                have : (d.s == tokS "else") = true := by simp [c3]
+                simp only [this, if_true] at hs
+                injection hs with hs; subst hs
+                exact ⟨hb2, hb3, hnb⟩
+              · have n3 : (d.s == tokS "else") = false := by simpa using c3
+                simp only [n3, Bool.false_eq_true, if_false] at hs
+                by_cases c4 : d.s = tokS "endif"
+                · obtain ⟨hb2, hb3⟩ := k4 c4
+                  have : (d.s == tokS "endif") = true := by simp [c4]
+                  simp only [this, if_true] at hs
+                  injection hs with hs; subst hs
+                  exact ⟨hb2, hb3, hnb⟩
+                · have n4 : (d.s == tokS "endif") = false := by simpa using c4
+                  simp only [n4, Bool.false_eq_true, if_false] at hs
+                  injection hs with hs; subst hs
+                  exact ⟨k5 c1' c2 c3 c4, hnb⟩
+        · have hn' : isName d.s = false := by simpa using hn
+          simp only [hn', Bool.not_false, if_true] at hs h
+          injection hs with hs; subst hs; injection h with h; subst h
+          exact ⟨rfl, hnb⟩
+    · have hb : (hd.s == ['#']) = false := by simpa using hh
+      have hnb : (hd.s != ['#']) = true := by simp [hh]
+      simp only [skelLine, hb, Bool.false_eq_true, if_false] at hs
+      injection hs with hs; subst hs
+      simp only [stepLine, hb, Bool.false_eq_true, if_false] at h
+      refine ⟨rfl, ?_, hnb⟩
+      split at h
+      · injection h with h; subst h; rfl
+      · split at h
+        · simp at h
+        · injection h with h; subst h; rfl
+
+/-- **the directive loop keeps exactly the lines the abstract machine `runC` keeps on the skeleton of the run** -/
+theorem runLines_kept_eq_runC (q : Quirks) (undefs : List Tok) : ∀ (lines : List (List LTok)) (st : PState) (i : Nat)
+    (sk : List CLine) (k : List Nat), skelLines q undefs st i lines = .ok sk → keptLines q undefs st i lines = .ok k →
+      runC st.ifs sk = some k := by
+  intro lines
+  induction lines with
+  | nil =>
+    intro st i sk k h1 h2
+    simp only [skelLines] at h1; simp only [keptLines] at h2
+    injection h1 with h1; injection h2 with h2; subst h1 h2
+    rfl
+  | cons l r ih =>
+    intro st i sk k h1 h2
+    simp only [skelLines] at h1
+    simp only [keptLines] at h2
+    cases hc : skelLine q st i l with
+    | error e => rw [hc] at h1; cases hst : stepLine q undefs st l <;> rw [hst] at h1 <;> simp at h1
+    | ok c =>
+      cases hst : stepLine q undefs st l with
+      | error e => rw [hst] at h2; simp at h2
+      | ok st' =>
+        rw [hc, hst] at h1
+        rw [hst] at h2
+        simp only at h1 h2
+        cases hsk : skelLines q undefs st' (i + 1) r with
+        | error e => rw [hsk] at h1; simp [Except.map] at h1
+        | ok sk' =>
+          cases hk : keptLines q undefs st' (i + 1) r with
+          | error e => rw [hk] at h2; simp [Except.map] at h2
+          | ok k' =>
+            rw [hsk] at h1; rw [hk] at h2
+            simp only [Except.map] at h1 h2
+            injection h1 with h1; injection h2 with h2
+            subst h1 h2
+            have ihr := ih st' (i + 1) sk' k' hsk hk
+            have hl := stepLine_skel q undefs st st' i l c hc hst
+            cases c with
+            | none =>
+              obtain ⟨e1, e2⟩ := hl
+              rw [e1] at ihr
+              cases l with
+              | nil => simpa using ihr
+              | cons hd tl => simp only at e2; simp [e2, ihr]
+            | some cl =>
+              cases cl with
+              | text j =>
+                obtain ⟨rfl, e1, e2⟩ := hl
+                rw [e1] at ihr
+                cases l with
+                | nil => exact absurd e2 (by simp)
+                | cons hd tl =>
+                  simp only at e2
+                  simp only [List.singleton_append, runC, ihr, Option.map_some, e2, Bool.true_and]
+                  split <;> simp
+              | ifc b =>
+                obtain ⟨e1, e2⟩ := hl
+                rw [e1] at ihr
+                cases l with
+                | nil => exact absurd e2 (by simp)
+                | cons hd tl => simp only at e2; simp [runC, ihr, e2]
+              | elifc b =>
+                obtain ⟨e0, e1, e2⟩ := hl
+                rw [e1] at ihr
+                cases l with
+                | nil => exact absurd e2 (by simp)
+                | cons hd tl => simp only at e2; simp [runC, ihr, e2, e0]
+              | els =>
+                obtain ⟨e0, e1, e2⟩ := hl
+                rw [e1] at ihr
+                cases l with
+                | nil => exact absurd e2 (by simp)
+                | cons hd tl => simp only at e2; simp [runC, ihr, e2, e0]
+              | endif =>
+                obtain ⟨e0, e1, e2⟩ := hl
+                rw [e1] at ihr
+                cases l with
+                | nil => exact absurd e2 (by simp)
+                | cons hd tl => simp only at e2; simp [runC, ihr, e2, e0]
+
+
+/-! ## a function-like macro whose replacement list contains no macro name and no `#`: simultaneous parameter substitution -/
+
+/-- the replacement list with every parameter replaced by its argument -/
+def substParams (ps : List Tok) (args : List (List XTok)) (body : List Tok) : List XTok :=
+  body.flatMap fun s => match argOf ps args s with
+    | some a => a
+    | none => [tokOf s]
+
+theorem nextIsPaste_false : ∀ (l : List Tok), (∀ t ∈ l, (t != ['#']) = true) → nextIsPaste l = false := by
+  intro l h
+  match l with
+  | [] => rfl
+  | [a] => rfl
+  | a :: b :: r =>
+    have : (a == ['#']) = false := by simpa using h a (by simp)
+    simp [nextIsPaste, this]
+
+theorem subst_params (q : Quirks) (ps : List Tok) (args : List (List XTok)) (hva : ps.contains (tokS "__VA_ARGS__") = false) :
+    ∀ (body : List Tok) (out : List XTok), (∀ t ∈ body, (t != ['#']) = true) →
+      subst q true ps args args body out = some (out.reverse ++ substParams ps args body) := by
+  have hv : ∀ t a, argOf ps args t = some a → (t == tokS "__VA_ARGS__") = false := by
+    intro t a h
+    unfold argOf at h
+    split at h
+    · cases hi : indexOf ps t with
+      | none => rw [hi] at h; simp at h
+      | some i =>
+        have hmem : ∀ (l : List Tok) (j : Nat), indexOf l t = some j → l.contains t = true := by
+          intro l
+          induction l with
+          | nil => intro j hj; simp [indexOf] at hj
+          | cons p r ih =>
+            intro j hj
+            simp only [indexOf] at hj
+            by_cases hp : (p == t) = true
+            · have : p = t := by simpa using hp
+              simp [this]
+            · simp only [hp, Bool.false_eq_true, if_false] at hj
+              cases hr : indexOf r t with
+              | none => rw [hr] at hj; simp at hj
+              | some j' => have := ih j' hr; simp_all
+        have := hmem ps i hi
+        cases hb : (t == tokS "__VA_ARGS__") with
+        | false => rfl
+        | true =>
+          have : t = tokS "__VA_ARGS__" := by simpa using hb
+          subst this; simp_all
+    · simp at h
+  intro body
+  induction body using List.rec with
+  | nil => intro out _; simp [subst, substParams]
+  | cons t r ih =>
+    intro out h
+    have ht : (t == ['#']) = false := by have := h t (by simp); simpa using this
+    have hr : ∀ x ∈ r, (x != ['#']) = true := fun x hx => h x (by simp [hx])
+    cases r with
+    | nil =>
+      cases ha : argOf ps args t with
+      | none => simp [subst, ht, ha, substParams, tokOf]
+      | some a => simp [subst, ht, ha, substParams]
+    | cons h2 r' =>
+      rw [subst.eq_def]
+      simp only [ht, Bool.false_eq_true, if_false]
+      have hnp : nextIsPaste (h2 :: r') = false := nextIsPaste_false _ hr
+      cases ha : argOf ps args t with
+      | none =>
+        have := ih (tokOf t :: out) hr
+        simp only [tokOf] at this
+        simp [this, substParams, ha, tokOf]
+      | some a =>
+        have hvt := hv t a ha
+        have := ih (a.reverse ++ out) hr
+        simp only [hnp, Bool.false_eq_true, if_false, hvt, Bool.and_false, Bool.false_and]
+        simp [this, substParams, ha]
+
+theorem mapM_ok_eq {α β : Type} (f : α → Except XErr β) (g : α → β) : ∀ (l : List α), (∀ x ∈ l, f x = .ok (g x)) →
+    l.mapM f = .ok (l.map g) := by
+  intro l
+  induction l with
+  | nil => intro _; rfl
+  | cons a r ih =>
+    intro h
+    have h1 := h a (by simp)
+    have h2 := ih (fun x hx => h x (by simp [hx]))
+    simp [List.mapM_cons, h1, h2, bind, Except.bind, pure, Except.pure]
+
+
+/-- replacement lists contain neither a macro name nor `#` (macros may be function-like) -/
+def flatBodies (ms : List Macro) : Bool :=
+  ms.all fun m => m.body.all fun t => (lookup ms t).isNone && t != ['#']
+
+theorem flatBodies_facts {ms : List Macro} (hf : flatBodies ms = true) {n : Tok} {m : Macro} (h : lookup ms n = some m) :
+    ∀ t ∈ m.body, lookup ms t = none ∧ (t != ['#']) = true := by
+  obtain ⟨hm, _⟩ := lookup_some_name h
+  unfold flatBodies at hf
+  have := List.all_eq_true.mp hf m hm
+  simp only [Bool.and_eq_true, Option.isNone_iff_eq_none, List.all_eq_true] at this
+  exact fun t ht => this t ht
+
+theorem substParams_nonmacro {ms : List Macro} {ps : List Tok} {args : List (List XTok)} {body : List Tok}
+    (hb : ∀ t ∈ body, lookup ms t = none) (ha : ∀ a ∈ args, ∀ x ∈ a, lookup ms x.s = none) :
+    ∀ x ∈ substParams ps args body, lookup ms x.s = none := by
+  intro x hx
+  simp only [substParams, List.mem_flatMap] at hx
+  obtain ⟨s, hs, hx⟩ := hx
+  cases hao : argOf ps args s with
+  | none => rw [hao] at hx; simp at hx; subst hx; exact hb s hs
+  | some a =>
+    rw [hao] at hx
+    simp only at hx
+    unfold argOf at hao
+    split at hao
+    · cases hi : indexOf ps s with
+      | none => rw [hi] at hao; simp at hao
+      | some i =>
+        rw [hi] at hao
+        simp only [Option.map_some, Option.some.injEq] at hao
+        subst hao
+        by_cases hlt : i < args.length
+        · have : args.getD i [] = args[i] := by simp [List.getD, hlt]
+          rw [this] at hx
+          exact ha _ (List.getElem_mem hlt) x hx
+        · have : args.getD i [] = [] := by simp [List.getD, List.getElem?_eq_none (by omega : args.length ≤ i)]
+          rw [this] at hx; simp at hx
+    · simp at hao
+
+/-- **function-like macro replacement = simultaneous parameter substitution**, for replacement lists without macro names and `#`
+and arguments without macro names -/
+theorem expand_fn_flat (q : Quirks) (ms : List Macro) (hf : flatBodies ms = true) (t lp : XTok) (m : Macro) (ps : List Tok)
+    (rest1 rest2 : List XTok) (args : List (List XTok))
+    (htn : isName t.s = true) (htb : t.blue = false) (hl : lookup ms t.s = some m) (hps : m.params = some ps)
+    (hnv : m.variadic = false) (hne : ps.length ≠ 0) (hva : ps.contains (tokS "__VA_ARGS__") = false) (hlp : lp.s = ['('])
+    (hpa : parseArgs rest1 = some (args, rest2)) (hlen : args.length = ps.length)
+    (hargs : ∀ a ∈ args, ∀ x ∈ a, lookup ms x.s = none) :
+    expand q ms [] (t :: lp :: rest1) = (expand q ms [] rest2).map (substParams ps args m.body ++ ·) := by
+  have hbody := flatBodies_facts hf hl
+  have hbind : bindArgs m ps args = some args := by simp [bindArgs, hne, hnv, hlen]
+  have hmap : (args.zipIdx.attach.mapM fun (x : { x // x ∈ args.zipIdx }) =>
+      if plainUse ps m.body (min x.1.2 (ps.length - 1)) then expand q ms [] x.1.1 else (.ok x.1.1 : Except XErr (List XTok))) = .ok args := by
+    rw [mapM_ok_eq _ (fun x => x.1.1)]
+    · congr 1
+      rw [List.attach_map_val' (f := fun (x : List XTok × Nat) => x.1)]  -- map over attach = map over the list
+      simp
+    · intro x _
+      have hx : x.1.1 ∈ args := List.fst_mem_of_mem_zipIdx (x := x.1) x.2
+      split
+      · exact expand_nonmacro q ms _ _ (hargs _ hx)
+      · rfl
+  have hsub := subst_params q ps args hva m.body [] (fun x hx => (hbody x hx).2)
+  simp only [List.reverse_nil, List.nil_append] at hsub
+  have hnm : ∀ x ∈ substParams ps args m.body, lookup ms x.s = none :=
+    substParams_nonmacro (fun x hx => (hbody x hx).1) hargs
+  have hexp := expand_nonmacro q ms (substParams ps args m.body) [t.s] hnm
+  rw [expand]
+  simp only [htn, htb, Bool.not_true, Bool.or_self, Bool.false_eq_true, if_false]
+  split
+  · rename_i h0; rw [hl] at h0; simp at h0
+  · rename_i m' hl'
+    have hm : m' = m := by rw [hl] at hl'; injection hl' with h; exact h.symm
+    subst hm
+    have hd : ([] : List Tok).contains t.s = false := by simp
+    simp only [hd, Bool.false_eq_true, dite_false]
+    split
+    · rename_i hpn; rw [hps] at hpn; simp at hpn
+    · rename_i ps' hps'
+      have : ps' = ps := by rw [hps] at hps'; injection hps' with h; exact h.symm
+      subst this
+      have hlp' : (lp.s != ['(']) = false := by simp [hlp]
+      simp only [hlp', Bool.false_eq_true, if_false]
+      split
+      · rename_i h0; rw [hpa] at h0; simp at h0
+      · rename_i args' rest2' hpa'
+        have e : args' = args ∧ rest2' = rest2 := by
+          rw [hpa] at hpa'; injection hpa' with h; injection h with h1 h2; exact ⟨h1.symm, h2.symm⟩
+        obtain ⟨rfl, rfl⟩ := e
+        simp only [hbind]
+        sorry
+
 end Cppcheck.PPMacro
